@@ -61,6 +61,11 @@ func DigestAppxTar(r io.Reader, hash crypto.Hash, doPageHash bool) (*AppxDigest,
 	if err != nil {
 		return nil, err
 	}
+	for _, f := range inz.File {
+		if f.Name == bundleManifestFile {
+			info.blockMap.isBundle = true
+		}
+	}
 	// digest non-signature-related files
 	var layout zipslicer.Contiguous
 copyf:
